@@ -40,7 +40,7 @@ def check(pid: str, tier: str, replay: str = None, repo: str = None, quiet=False
     mine: list[Inst] = []
     for rn, insts in results.items():
         for i in insts:
-            if pid in i.props:
+            if pid in i.props or any(i.rule == ar and i.func == af for ar, af in info.get('also', [])):
                 mine.append(i)
     # anchors: every (rule, function) the property relies on must have produced an instance
     missing = []
